@@ -23,6 +23,9 @@ pub struct Scn {
     /// quiescent snapshots also carry the rows of the store
     pub capture_store: bool,
     pub horizon: usize,
+    /// steps taken before the exploration begins: ("complete", key of an open interrupt) or ("tick", milliseconds
+    /// the virtual clock advances before one timer tick); the engine is drained after each
+    pub prelude: Vec<(String, String)>,
 }
 
 impl Scn {
@@ -36,10 +39,11 @@ impl Scn {
             full_views: false,
             capture_store: false,
             horizon: 400,
+            prelude: vec![],
         }
     }
     pub fn desc(&self) -> Value {
-        json!({"id": self.id, "models": self.models, "starts": self.starts, "config": self.cfg.to_json()})
+        json!({"id": self.id, "models": self.models, "starts": self.starts, "config": self.cfg.to_json(), "prelude": self.prelude})
     }
     pub fn pids(&self) -> Vec<String> {
         self.starts
